@@ -217,10 +217,17 @@ def run(tier, seed):
     for e in eg + es:
         res.violation("model evaluation failed (coqc)", dict(kind="coqc-error", log=e, no_failing_input_found=True))
     coll_corr = [dict(gmeta[i], what="gamma_collapse") for i in fg[:3]] + [dict(smeta[i], what="collapse loop") for i in fs[:3]]
+    # ---- whole passes of real A-FSSH runs (simple, dual, extended, Subotnik2D) replayed through Model/Traj.step_af
+    import ptraj
+    ac, ameta = ptraj.collect_af(res, rng, 8 if tier == "quick" else 150, 60 if tier == "quick" else 1500)
+    fa_, ea_ = run_case_check("C11traj", ptraj.PRELUDE_T, "caseA", "chkA", ac, per_file=10, timeout=1500)
+    for e in ea_:
+        res.violation("model evaluation failed (coqc)", dict(kind="coqc-error", log=e, no_failing_input_found=True))
+    coll_corr += [dict(ameta[i], what="full A-FSSH pass (Model/Traj.step_af vs the loop body of AugmentedFSSH.simulate)") for i in fa_[:4]]
     failing, errors = run_case_check("C11", PRELUDE, "case11", "chk11", cases, per_file=12, timeout=1500)
     for e in errors:
         res.violation("model evaluation failed (coqc)", dict(kind="coqc-error", log=e, no_failing_input_found=True))
-    res.traces_validated = len(cases) - len(failing) + len(gcs) - len(fg) + len(scs) - len(fs)
+    res.traces_validated = len(cases) - len(failing) + len(gcs) - len(fg) + len(scs) - len(fs) + len(ac) - len(fa_)
     corr = [meta[i] for i in failing[:4]] + coll_corr
     if bad:
         res.violation("implementation violates: " + bad[0]["failed"], dict(kind="oracle", failing_inputs=bad[:4], correspondence_failures=corr))
@@ -230,5 +237,5 @@ def run(tier, seed):
     return finish(res, thm,
                   rule="random Hermitian moments, random (pure coherent / mixed) rho, random stub electronics with 2..8 states and 1..3 dimensions, both moment integrators: advance_delR / advance_delP replayed through the model with numpy's eigh as oracle; "
                        "hop_update to every target index (below and above the source); exp vs rk4 at dt 0.4/0.2/0.1; forced collapses on two-state models with both trace back-ends; real A-FSSH runs on 1-D/2-D/5-D models (Hermiticity at every step); hop_to_it with accepted and frustrated attempts; "
-                       "gamma_collapse() on random moments/forces (incl. equal diagonal momenta and zero position differences) and the collapse loop of surface_hopping with rates placed on either side of the numbers drawn from a twin generator; non-trivial = distinct case",
+                       "whole passes of real A-FSSH runs on simple/dual/extended/Subotnik2D (moments, hop re-centring, collapse decision in the code's order) replayed through Model/Traj.step_af; gamma_collapse() on random moments/forces (incl. equal diagonal momenta and zero position differences) and the collapse loop of surface_hopping with rates placed on either side of the numbers drawn from a twin generator; non-trivial = distinct case",
                   assumptions=["the model uses (1/m)*delP where the code uses delP/m (one rounding)", "in the run-level probe the collapse is forced by raising gamma at two chosen steps; the rate formula and the decision loop are tied to the model separately (chkG, chkS)"])
